@@ -103,7 +103,7 @@ func Load(cfg LoadConfig, overlay map[string][]byte) (*Loaded, error) {
 		Stubs:          BaseStubs(),
 		Natives:        map[string]interface{}{},
 		Whitelist:      map[string]bool{},
-		WhitelistPkgs:  map[string]bool{"path": true, "strings": true, "internal/stringslite": true, "unicode/utf8": true},
+		WhitelistPkgs:  map[string]bool{"path": true, "strings": true, "internal/stringslite": true, "unicode/utf8": true, "go/ast": true, "go/token": true},
 		MaxSteps:       4_000_000,
 		MaxForks:       4000,
 		MaxBlockVisits: 5000,
